@@ -1,38 +1,160 @@
 /-
-  C15 — Band matching is sound (interim theorem set; the full set - lengths, order, one-to-one, tolerance, no silent
-  drop, nearest-band optimality - replaces this file when its proofs are complete).
+  C15 — Band matching is sound: one-to-one, in range, within tolerance, order preserving.
+
+  `matchBands srcB srcW refB refW force tol` is `_match_pair_bands` after `_get_band_info`: `srcB`/`refB` are the
+  candidate 1-based band numbers (the user's selections, or the default candidates) and `srcW`/`refW` their
+  wavelengths (`none` = no wavelength).  `.ok (S, R)` are the matched source / reference band lists.
 -/
 import Homonim.Lemmas.Bands
 
 namespace Homonim
 
-/-- the relative distance test is the 10 % test of the property: `|s - r| / s ≤ tol ↔ |s - r| ≤ tol · s` for `s > 0` -/
-theorem relDist_le_iff (a b tol : ℚ) (ha : 0 < a) :
-    (∃ d, relDist (some a) (some b) = some d ∧ d ≤ tol) ↔ |a - b| ≤ tol * a := by
-  unfold relDist
-  simp only [ne_of_gt ha, if_false]
-  have habs : (if a - b < 0 then b - a else a - b) = |a - b| := by
-    by_cases h : a - b < 0
-    · simp only [h, if_true]; rw [abs_of_neg h]; ring
-    · simp only [h, if_false]; rw [abs_of_nonneg (not_lt.mp h)]
-  rw [habs]
-  constructor
-  · rintro ⟨d, hd, hle⟩
-    cases hd
-    rwa [div_le_iff₀ ha] at hle
-  · intro h
-    exact ⟨_, rfl, by rwa [div_le_iff₀ ha]⟩
+/-- **Equal length** -/
+theorem match_lengths_eq (srcB : List Nat) (srcW : List (Option ℚ)) (refB : List Nat) (refW : List (Option ℚ))
+    (force : Bool) (tol : ℚ) (S R : List Nat) (h : matchBands srcB srcW refB refW force tol = .ok (S, R)) :
+    S.length = R.length := by
+  obtain ⟨_, mb, mb2, _, _, rfl, rfl⟩ := matchBands_ok h
+  simp
 
-/-- a band without a wavelength never takes part in wavelength matching -/
-theorem relDist_none (r : Option ℚ) (s : Option ℚ) : relDist none r = none ∧ relDist s none = none := by
-  constructor
-  · rfl
-  · cases s <;> rfl
+/-- **Source order is kept**: the matched source bands are a sub-list of the given order -/
+theorem match_src_order (srcB : List Nat) (srcW : List (Option ℚ)) (refB : List Nat) (refW : List (Option ℚ))
+    (force : Bool) (tol : ℚ) (S R : List Nat) (h : matchBands srcB srcW refB refW force tol = .ok (S, R)) :
+    S.Sublist srcB := by
+  obtain ⟨_, mb, mb2, _, _, rfl, rfl⟩ := matchBands_ok h
+  exact pairsOf_fst_sublist _ _
 
-/-- numpy truthiness: an all-NaN wavelength list still counts as "has wavelengths" (the greedy pass then matches nothing) -/
-theorem npAny_nan (ws : List (Option ℚ)) (h : none ∈ ws) : npAny ws = true := by
-  unfold npAny
-  rw [List.any_eq_true]
-  exact ⟨none, h, rfl⟩
+/-- **Only candidate reference bands are used** -/
+theorem match_ref_subset (srcB : List Nat) (srcW : List (Option ℚ)) (refB : List Nat) (refW : List (Option ℚ))
+    (force : Bool) (tol : ℚ) (S R : List Nat) (hs : srcW.length = srcB.length) (hr : refW.length = refB.length)
+    (h : matchBands srcB srcW refB refW force tol = .ok (S, R)) : ∀ r ∈ R, r ∈ refB := by
+  obtain ⟨_, mb, mb2, h1, h2, rfl, rfl⟩ := matchBands_ok h
+  have hout := stage2_mbOut _ _ _ _ _ _ (stage1_mbOut _ _ _ _ _ _ _ hs hr h1) h2
+  intro r hr'
+  have := (pairsOf_snd_sublist srcB mb2).subset hr'
+  apply hout.sub
+  simpa using this
+
+/-- **No reference band is used twice** (for a duplicate-free reference selection) -/
+theorem match_ref_nodup (srcB : List Nat) (srcW : List (Option ℚ)) (refB : List Nat) (refW : List (Option ℚ))
+    (force : Bool) (tol : ℚ) (S R : List Nat) (hs : srcW.length = srcB.length) (hr : refW.length = refB.length)
+    (hnd : refB.Nodup) (h : matchBands srcB srcW refB refW force tol = .ok (S, R)) : R.Nodup := by
+  obtain ⟨_, mb, mb2, h1, h2, rfl, rfl⟩ := matchBands_ok h
+  have hout := stage2_mbOut _ _ _ _ _ _ (stage1_mbOut _ _ _ _ _ _ _ hs hr h1) h2
+  exact (hout.nodup hnd).sublist (pairsOf_snd_sublist srcB mb2)
+
+/-- **No selected source band is silently dropped** unless matching is forced -/
+theorem match_no_silent_drop (srcB : List Nat) (srcW : List (Option ℚ)) (refB : List Nat) (refW : List (Option ℚ))
+    (tol : ℚ) (S R : List Nat) (hs : srcW.length = srcB.length) (hr : refW.length = refB.length) (hnd : refB.Nodup)
+    (h : matchBands srcB srcW refB refW false tol = .ok (S, R)) : S = srcB := by
+  obtain ⟨_, _, _, _, h, _⟩ := matchBands_ok_unforced hs hr hnd h
+  exact h
+
+/-- **Within tolerance**: unless matching is forced, every matched pair that has a wavelength on both sides differs by at
+    most `tol` relative to the source wavelength - including pairs made by the file-order fallback.
+
+    Changed with respect to the first draft of this statement:
+    * new hypothesis `hrany : npAny refW = true` (the reference wavelengths are not all `0.0`).  Without it the statement
+      is false: when every reference wavelength is `0.0`, numpy's `any()` is falsy, the wavelength stage is skipped and
+      the file-order fallback pairs the bands with no tolerance check, e.g.
+      `matchBands [1] [some 1] [1] [some 0] false (1/10) = .ok ([1], [1])` although `|1 - 0| > 1/10 * 1`.
+    * binder types `(k i j : Nat) (a b : ℚ)` written out (the draft did not elaborate: `S[k]?` with `k` of unknown type). -/
+theorem match_within_tol (srcB : List Nat) (srcW : List (Option ℚ)) (refB : List Nat) (refW : List (Option ℚ))
+    (tol : ℚ) (S R : List Nat) (hs : srcW.length = srcB.length) (hr : refW.length = refB.length)
+    (hnds : srcB.Nodup) (hnd : refB.Nodup) (hpos : ∀ a, some a ∈ srcW → 0 < a)
+    (hrany : npAny refW = true)
+    (h : matchBands srcB srcW refB refW false tol = .ok (S, R)) :
+    ∀ (k i j : Nat) (a b : ℚ), S[k]? = some (srcB.getD i 0) → R[k]? = some (refB.getD j 0) → i < srcB.length →
+      j < refB.length →
+      srcW[i]? = some (some a) → refW[j]? = some (some b) → |a - b| ≤ tol * a := by
+  intro k i j a b hS hR hi hj hwi hwj
+  obtain ⟨_, mb, h1, h2, rfl, _⟩ := matchBands_ok_unforced hs hr hnd h
+  have hki : k = i := by
+    obtain ⟨hk, hk'⟩ := List.getElem?_eq_some_iff.1 hS
+    rw [getD_eq_getElem' _ _ hi] at hk'
+    exact (hnds.getElem_inj_iff).1 hk'
+  subst hki
+  exact within_tol_core S srcW refB refW tol mb _ hs hr hnd hrany h1 h2 k j a b hj
+    (hpos a (List.mem_of_getElem? hwi)) (by rw [List.getElem?_map, hR]; rfl) hwi hwj
+
+/-- **Nearest band wins**: with wavelengths on every band, if every source band's nearest reference band is strictly
+    nearest, distinct from the other source bands' nearest bands and within tolerance, each source band gets exactly
+    that band. -/
+theorem match_nearest (srcB : List Nat) (srcW : List (Option ℚ)) (refB : List Nat) (refW : List (Option ℚ)) (tol : ℚ)
+    (hs : srcW.length = srcB.length) (hr : refW.length = refB.length) (hnm : srcB.length ≤ refB.length)
+    (hnd : refB.Nodup) (hne : srcB ≠ [])
+    (sw rw : Nat → ℚ) (hsw : ∀ i, i < srcB.length → srcW[i]? = some (some (sw i)) ∧ 0 < sw i)
+    (hrw : ∀ j, j < refB.length → refW[j]? = some (some (rw j)))
+    (assign : Nat → Nat) (hin : ∀ i, i < srcB.length → assign i < refB.length)
+    (hinj : ∀ i i', i < srcB.length → i' < srcB.length → assign i = assign i' → i = i')
+    (hnear : ∀ i j, i < srcB.length → j < refB.length → j ≠ assign i →
+      |sw i - rw (assign i)| / sw i < |sw i - rw j| / sw i)
+    (htol : ∀ i, i < srcB.length → |sw i - rw (assign i)| / sw i ≤ tol) :
+    matchBands srcB srcW refB refW false tol =
+      .ok (srcB, (List.range srcB.length).map fun i => refB.getD (assign i) 0) := by
+  have hn0 : 0 < srcB.length := List.length_pos_iff.2 hne
+  have hsany : npAny srcW = true := npAny_of_pos _ 0 _ (hsw 0 hn0).1 (ne_of_gt (hsw 0 hn0).2)
+  rw [matchBands_eq, if_neg (by simp; omega)]
+  cases hrany : npAny refW with
+  | true =>
+    obtain ⟨hlen, hg⟩ := nearest_greedy srcW refW srcB.length refB.length hs hr sw rw hsw hrw assign hin hinj hnear
+    simp only [distOf] at hlen hg
+    have h1 : stage1 srcB srcW refB refW false tol =
+        .ok (((List.range srcB.length).map fun i => refB.getD (assign i) 0).map some) := by
+      unfold stage1
+      simp only [hsany, hrany, Bool.and_self, Bool.not_false, if_true]
+      rw [if_neg]
+      · congr 1
+        apply List.ext_getElem?
+        intro i
+        by_cases hi : i < srcB.length
+        · have := hg i hi
+          simp [List.getElem?_map, this, List.getElem?_range hi]
+        · have h1 : srcB.length ≤ i := not_lt.1 hi
+          rw [List.getElem?_eq_none (by rw [List.length_map, hlen]; exact h1),
+            List.getElem?_eq_none (by simpa using h1)]
+      · simp only [Bool.not_eq_true, List.any_eq_false]
+        intro e he
+        obtain ⟨i, hi⟩ := List.getElem?_of_mem he
+        have hilt : i < srcB.length := by
+          have := (List.getElem?_eq_some_iff.1 hi).1
+          omega
+        have := hg i hilt
+        rw [this] at hi
+        simp only [Option.some.injEq] at hi
+        subst hi
+        simpa using htol i hilt
+    rw [h1]
+    exact finish_all_matched srcB refB _ refB.length (by simp) hnm
+  | false =>
+    -- every reference wavelength is `0.0`: only possible with a single band on both sides
+    have hrw0 : ∀ j, j < refB.length → rw j = 0 := by
+      intro j hj
+      have := npAny_false _ hrany _ (List.mem_of_getElem? (hrw j hj))
+      simpa using this
+    have hm1 : refB.length = 1 := by
+      by_contra hm
+      have hm2 : 2 ≤ refB.length := by omega
+      have hj : ∃ j, j < refB.length ∧ j ≠ assign 0 := by
+        by_cases h0 : assign 0 = 0
+        · exact ⟨1, by omega, by omega⟩
+        · exact ⟨0, by omega, fun h => h0 h.symm⟩
+      obtain ⟨j, hj, hja⟩ := hj
+      have := hnear 0 j hn0 hj hja
+      rw [hrw0 j hj, hrw0 _ (hin 0 hn0)] at this
+      exact lt_irrefl _ this
+    have hn1 : srcB.length = 1 := by omega
+    obtain ⟨s, rfl⟩ := List.length_eq_one_iff.1 hn1
+    obtain ⟨r, rfl⟩ := List.length_eq_one_iff.1 hm1
+    have ha : assign 0 = 0 := by have := hin 0 (by simp); simpa using this
+    simp [stage1, hsany, hrany, stage2, matchBands.fillNone, pairsOf, ha]
+
+/-- **Witness (finding D12)**: the hypothesis `npAny refW = true` of `match_within_tol` cannot be dropped - when every
+    reference wavelength is `0.0` numpy's `any()` is false, the wavelength stage is skipped and the file-order fallback pairs
+    a 0.5 um source band with a 0 um reference band although they differ by 100 %.  The real code does the same. -/
+theorem within_tol_zero_wavelength_counterexample :
+    matchBands [1] [some (1 / 2)] [1] [some 0] false (1 / 10) = .ok ([1], [1]) ∧ ¬ (|(1 / 2 : ℚ) - 0| ≤ 1 / 10 * (1 / 2)) := by
+  constructor
+  · decide +kernel
+  · norm_num
 
 end Homonim
